@@ -1089,4 +1089,653 @@ theorem git_renders_noeol3 (diffFn : DiffFn) (len : Nat) (hn : 1 ≤ len) (eol :
   · rw [parseConflictHunk_gitBody len hn eol he l b r hL hB hR, ← hm]; rfl
   · rw [materializeConflict_git3 diffFn len labels eol h ci nc l b r (by simp [hall, hsides])]
     simp [hall, materializeGit_eq]
+
+/-! ### marker length choice -/
+
+theorem le_maxList {l : List Nat} {x : Nat} (h : x ∈ l) : x ≤ maxList l := by
+  induction l with
+  | nil => simp at h
+  | cons a l ih =>
+    simp only [maxList]
+    rcases List.mem_cons.mp h with rfl | h'
+    · exact Nat.le_max_left _ _
+    · exact Nat.le_trans (ih h') (Nat.le_max_right _ _)
+
+/-- every marker-like line of the files is shorter than or equal to the recorded maximum -/
+theorem markerLen_le_max {files : List Bytes} {f l : Bytes} (hf : f ∈ files) (hl : l ∈ linesWT f)
+    {k : MarkerKind} {m : Nat} (hm : parseMarkerAnyLen l = some (k, m)) :
+    m ≤ maxList (markerLens files) := by
+  apply le_maxList
+  unfold markerLens
+  simp only [List.mem_map, List.mem_filterMap, List.mem_flatMap]
+  exact ⟨(k, m), ⟨l, ⟨f, hf, hl⟩, hm⟩, rfl⟩
+
+/-- the source constants: the chosen length is strictly above every existing marker run … -/
+theorem increment_pos : 1 ≤ CONFLICT_MARKER_LEN_INCREMENT := by decide
+/-- … by at least two, so one extra diff-prefix byte cannot complete a marker … -/
+theorem increment_ge_two : 2 ≤ CONFLICT_MARKER_LEN_INCREMENT := by decide
+/-- … and even a lone prefix byte (a "marker" of length 1) is too short. -/
+theorem min_len_ge_two : 2 ≤ MIN_CONFLICT_MARKER_LEN := by decide
+
+theorem chooseMarkerLen_gt (files : List Bytes) :
+    maxList (markerLens files) + CONFLICT_MARKER_LEN_INCREMENT ≤ chooseMarkerLen files ∧
+    MIN_CONFLICT_MARKER_LEN ≤ chooseMarkerLen files := by
+  unfold chooseMarkerLen; exact ⟨Nat.le_max_left _ _, Nat.le_max_right _ _⟩
+
+theorem chooseMarkerLen_pos (files : List Bytes) : 1 ≤ chooseMarkerLen files := by
+  have := (chooseMarkerLen_gt files).2; have := min_len_ge_two; omega
+
+/-- **(c)** no line of any file is a marker of the chosen length -/
+theorem chooseMarkerLen_safe (files : List Bytes) (f : Bytes) (hf : f ∈ files) :
+    ContentOK (chooseMarkerLen files) f := by
+  intro l hl
+  unfold parseMarker
+  cases hm : parseMarkerAnyLen l with
+  | none => rfl
+  | some km =>
+    obtain ⟨k, m⟩ := km
+    have h1 := markerLen_le_max hf hl hm
+    have h2 := (chooseMarkerLen_gt files).1
+    have h3 := increment_pos
+    simp only [ge_iff_le]
+    rw [if_neg (by omega)]
+
+/-- the decision `parse_conflict_marker_any_len` takes once kind and run length are known -/
+def markerTail (kind : MarkerKind) (n : Nat) (dw : Bytes) : Option (MarkerKind × Nat) :=
+  match dw with
+  | [] => some (kind, n)
+  | next :: _ => if isAsciiWhitespace next then some (kind, n) else none
+
+theorem parseMarkerAnyLen_cons_eq (p : UInt8) (l : Bytes) :
+    parseMarkerAnyLen (p :: l) =
+      match parseByte p with
+      | none => none
+      | some kind => markerTail kind ((l.takeWhile (· = p)).length + 1) (l.dropWhile (· = p)) := by
+  unfold parseMarkerAnyLen markerTail
+  cases hk : parseByte p
+  · simp [hk]
+  · simp only [hk, List.takeWhile_cons_of_pos, decide_true, List.dropWhile_cons_of_pos,
+      List.length_cons]
+    cases List.dropWhile (fun x => decide (x = p)) l <;> rfl
+
+theorem markerTail_succ {kind k : MarkerKind} {n m : Nat} {dw : Bytes}
+    (h : markerTail kind (n + 1) dw = some (k, m)) : markerTail kind n dw = some (k, n) ∧ m = n + 1 := by
+  unfold markerTail at h ⊢
+  split at h
+  · simp at h; simp [h.1, h.2.symm]
+  · split at h
+    · rename_i hws; simp at h; simp [hws, h.1, h.2.symm]
+    · cases h
+
+theorem markerTail_len {kind k : MarkerKind} {n m : Nat} {dw : Bytes}
+    (h : markerTail kind n dw = some (k, m)) : m = n := by
+  unfold markerTail at h
+  split at h
+  · simp at h; exact h.2.symm
+  · split at h
+    · simp at h; exact h.2.symm
+    · cases h
+
+/-- a marker found after prepending one byte is either of length 1 or extends a marker of the
+original line by one -/
+theorem parseMarkerAnyLen_cons {p : UInt8} {l : Bytes} {k : MarkerKind} {m : Nat}
+    (h : parseMarkerAnyLen (p :: l) = some (k, m)) :
+    m = 1 ∨ ∃ m', parseMarkerAnyLen l = some (k, m') ∧ m = m' + 1 := by
+  rw [parseMarkerAnyLen_cons_eq] at h
+  cases hk : parseByte p with
+  | none => simp [hk] at h
+  | some kind =>
+    simp only [hk] at h
+    cases l with
+    | nil => left; simpa using markerTail_len h
+    | cons q l' =>
+      by_cases hq : q = p
+      · right
+        subst hq
+        simp only [List.takeWhile_cons_of_pos, decide_true, List.dropWhile_cons_of_pos,
+          List.length_cons] at h
+        obtain ⟨h1, h2⟩ := markerTail_succ h
+        refine ⟨_, ?_, h2⟩
+        rw [parseMarkerAnyLen_cons_eq, hk]; exact h1
+      · left
+        have hq' : ¬ (decide (q = p) = true) := by simpa using hq
+        simp only [List.takeWhile_cons, List.dropWhile_cons, hq'] at h
+        simpa using markerTail_len h
+
+/-- what the diff styles additionally need of a content: a line stays a non-marker when one of the
+diff prefixes `' '`, `'-'`, `'+'` is put in front -/
+def DiffSafe (len : Nat) (c : Bytes) : Prop :=
+  ∀ l ∈ linesWT c, parseMarker (32 :: l) len = none ∧ parseMarker (45 :: l) len = none ∧
+    parseMarker (43 :: l) len = none
+
+instance (len : Nat) (c : Bytes) : Decidable (DiffSafe len c) := by unfold DiffSafe; infer_instance
+
+theorem chooseMarkerLen_prefixed (files : List Bytes) (f : Bytes) (hf : f ∈ files) (l : Bytes)
+    (hl : l ∈ linesWT f) (p : UInt8) : parseMarker (p :: l) (chooseMarkerLen files) = none := by
+  unfold parseMarker
+  cases hm : parseMarkerAnyLen (p :: l) with
+  | none => rfl
+  | some km =>
+    obtain ⟨k, m⟩ := km
+    have h2 := (chooseMarkerLen_gt files)
+    have h3 := increment_ge_two
+    have h4 := min_len_ge_two
+    simp only [ge_iff_le]
+    rcases parseMarkerAnyLen_cons hm with h1 | ⟨m', hm', h1⟩
+    · rw [if_neg (by omega)]
+    · have := markerLen_le_max hf hl hm'
+      rw [if_neg (by omega)]
+
+/-- **(c′)** with the source's increment (≥ 2) the chosen length also protects diff-prefixed lines -/
+theorem chooseMarkerLen_diffSafe (files : List Bytes) (f : Bytes) (hf : f ∈ files) :
+    DiffSafe (chooseMarkerLen files) f :=
+  fun l hl => ⟨chooseMarkerLen_prefixed files f hf l hl _, chooseMarkerLen_prefixed files f hf l hl _,
+    chooseMarkerLen_prefixed files f hf l hl _⟩
+
+/-! ### the diff styles -/
+
+theorem linesWT_prefixLines (p : UInt8) (hp : p ≠ LF) (c : Bytes) (hc : EndsLF c) (rest : Bytes) :
+    linesWT (prefixLines p c ++ rest) = (linesWT c).map (p :: ·) ++ linesWT rest := by
+  have : prefixLines p c = ((linesWT c).map (p :: ·)).flatten := by
+    simp [prefixLines, List.flatMap_def]
+  rw [this, linesWT_flatten_lines]
+  intro l hl
+  obtain ⟨l0, hl0, rfl⟩ := List.mem_map.mp hl
+  exact Line_cons hp (EndsLF_lines hc l0 hl0)
+
+theorem EndsLF_prefixLines (p : UInt8) (hp : p ≠ LF) (c : Bytes) (hc : EndsLF c) :
+    EndsLF (prefixLines p c) := by
+  have : prefixLines p c = ((linesWT c).map (p :: ·)).flatten := by
+    simp [prefixLines, List.flatMap_def]
+  rw [this]
+  apply EndsLF_flatten_lines
+  intro l hl
+  obtain ⟨l0, hl0, rfl⟩ := List.mem_map.mp hl
+  exact Line_cons hp (EndsLF_lines hc l0 hl0)
+
+theorem BodyOK_prefixLines {len : Nat} (p : UInt8) (hp : p ≠ LF) (c : Bytes) (hc : EndsLF c)
+    (hs : ∀ l ∈ linesWT c, parseMarker (p :: l) len = none) : BodyOK len (prefixLines p c) := by
+  refine ⟨EndsLF_prefixLines p hp c hc, ?_⟩
+  unfold NoStartEnd
+  have := linesWT_prefixLines p hp c hc []
+  simp only [List.append_nil, linesWT] at this
+  rw [this]
+  intro l hl
+  obtain ⟨l0, hl0, rfl⟩ := List.mem_map.mp hl
+  simp [hs l0 hl0]
+
+theorem jj_diff_minus (len : Nat) (ls : List Bytes) (h : ∀ l ∈ ls, parseMarker (45 :: l) len = none)
+    (rs as : List Bytes) (a : Bytes) (more : List Bytes) :
+    parseJJLoop len .diff (a :: rs) as (ls.map (45 :: ·) ++ more) =
+      parseJJLoop len .diff ((a ++ ls.flatten) :: rs) as more := by
+  induction ls generalizing a with
+  | nil => simp
+  | cons l ls ih =>
+    have hl := h l (by simp)
+    have hls : ∀ l ∈ ls, parseMarker (45 :: l) len = none := fun x hx => h x (List.mem_cons_of_mem _ hx)
+    simp only [List.map_cons, List.cons_append, parseJJLoop, hl, extendLast, ih hls, List.flatten_cons,
+      List.append_assoc]
+
+theorem jj_diff_plus (len : Nat) (ls : List Bytes) (h : ∀ l ∈ ls, parseMarker (43 :: l) len = none)
+    (rs as : List Bytes) (b : Bytes) (more : List Bytes) :
+    parseJJLoop len .diff rs (b :: as) (ls.map (43 :: ·) ++ more) =
+      parseJJLoop len .diff rs ((b ++ ls.flatten) :: as) more := by
+  induction ls generalizing b with
+  | nil => simp
+  | cons l ls ih =>
+    have hl := h l (by simp)
+    have hls : ∀ l ∈ ls, parseMarker (43 :: l) len = none := fun x hx => h x (List.mem_cons_of_mem _ hx)
+    simp only [List.map_cons, List.cons_append, parseJJLoop, hl, extendLast, ih hls, List.flatten_cons,
+      List.append_assoc]
+
+theorem jj_diff_space (len : Nat) (ls : List Bytes) (h : ∀ l ∈ ls, parseMarker (32 :: l) len = none)
+    (rs as : List Bytes) (a b : Bytes) (more : List Bytes) :
+    parseJJLoop len .diff (a :: rs) (b :: as) (ls.map (32 :: ·) ++ more) =
+      parseJJLoop len .diff ((a ++ ls.flatten) :: rs) ((b ++ ls.flatten) :: as) more := by
+  induction ls generalizing a b with
+  | nil => simp
+  | cons l ls ih =>
+    have hl := h l (by simp)
+    have hls : ∀ l ∈ ls, parseMarker (32 :: l) len = none := fun x hx => h x (List.mem_cons_of_mem _ hx)
+    simp only [List.map_cons, List.cons_append, parseJJLoop, hl, extendLast, ih hls, List.flatten_cons,
+      List.append_assoc]
+
+/-- what the parser reads back for the positive side of a diff: matching groups are printed once,
+from their left content -/
+def rightCat (d : List DiffGroup) : Bytes :=
+  (d.map (fun g => if g.matching then g.left else g.right)).flatten
+
+def leftCat (d : List DiffGroup) : Bytes := (d.map (·.left)).flatten
+
+/-- per-group requirements: whole lines, and no line becomes a marker when prefixed -/
+def GroupOK (len : Nat) (g : DiffGroup) : Prop :=
+  EndsLF g.left ∧ EndsLF g.right ∧ DiffSafe len g.left ∧ DiffSafe len g.right
+
+theorem jj_diff_groups (len : Nat) (d : List DiffGroup) (hd : ∀ g ∈ d, GroupOK len g)
+    (rs as : List Bytes) (a b rest : Bytes) :
+    parseJJLoop len .diff (a :: rs) (b :: as) (linesWT (writeDiffHunks d ++ rest)) =
+      parseJJLoop len .diff ((a ++ leftCat d) :: rs) ((b ++ rightCat d) :: as) (linesWT rest) := by
+  induction d generalizing a b with
+  | nil => simp [writeDiffHunks, leftCat, rightCat]
+  | cons g d ih =>
+    obtain ⟨hl, hr, hsl, hsr⟩ := hd g (by simp)
+    have ih := ih (fun x hx => hd x (List.mem_cons_of_mem _ hx))
+    simp only [writeDiffHunks]
+    by_cases hm : g.matching = true
+    · simp only [hm, if_true, List.append_assoc]
+      rw [linesWT_prefixLines 32 (by decide) _ hl, jj_diff_space len _ (fun l h => (hsl l h).1), ih,
+        linesWT_flatten]
+      simp [leftCat, rightCat, hm]
+    · have hm' : g.matching = false := by simpa using hm
+      simp only [hm', Bool.false_eq_true, if_false, List.append_assoc]
+      rw [linesWT_prefixLines 45 (by decide) _ hl, jj_diff_minus len _ (fun l h => (hsl l h).2.1),
+        linesWT_prefixLines 43 (by decide) _ hr, jj_diff_plus len _ (fun l h => (hsr l h).2.2), ih,
+        linesWT_flatten, linesWT_flatten]
+      simp [leftCat, rightCat, hm']
+
+theorem BodyOK_writeDiffHunks (len : Nat) (d : List DiffGroup) (hd : ∀ g ∈ d, GroupOK len g) :
+    BodyOK len (writeDiffHunks d) := by
+  induction d with
+  | nil => simpa [writeDiffHunks] using BodyOK_nil len
+  | cons g d ih =>
+    obtain ⟨hl, hr, hsl, hsr⟩ := hd g (by simp)
+    have ih := ih (fun x hx => hd x (List.mem_cons_of_mem _ hx))
+    simp only [writeDiffHunks]
+    refine BodyOK_append ?_ ih
+    split
+    · exact BodyOK_prefixLines 32 (by decide) _ hl (fun l h => (hsl l h).1)
+    · exact BodyOK_append (BodyOK_prefixLines 45 (by decide) _ hl (fun l h => (hsl l h).2.1))
+        (BodyOK_prefixLines 43 (by decide) _ hr (fun l h => (hsr l h).2.2))
+
+/-- The assumption about a two-sided line diff (the subject of C03, an input here): the groups
+reconstruct both sides, matching groups have equal contents, and every group consists of whole
+lines. -/
+structure DiffOK (d : List DiffGroup) (l r : Bytes) : Prop where
+  left : (d.map (·.left)).flatten = l
+  right : (d.map (·.right)).flatten = r
+  matching : ∀ g ∈ d, g.matching = true → g.left = g.right
+  aligned : ∀ g ∈ d, EndsLF g.left ∧ EndsLF g.right
+
+theorem linesWT_flatten_EndsLF (cs : List Bytes) (h : ∀ c ∈ cs, EndsLF c) :
+    linesWT cs.flatten = cs.flatMap linesWT := by
+  induction cs with
+  | nil => simp [linesWT]
+  | cons c cs ih =>
+    simp only [List.flatten_cons, List.flatMap_cons]
+    rw [linesWT_append_of_EndsLF (h c (by simp)), ih (fun x hx => h x (List.mem_cons_of_mem _ hx))]
+
+theorem DiffSafe_of_piece {len : Nat} {cs : List Bytes} (h : ∀ c ∈ cs, EndsLF c)
+    (hs : DiffSafe len cs.flatten) {c : Bytes} (hc : c ∈ cs) : DiffSafe len c := by
+  intro l hl
+  apply hs
+  rw [linesWT_flatten_EndsLF cs h]
+  exact List.mem_flatMap.mpr ⟨c, hc, hl⟩
+
+theorem rightCat_eq {d : List DiffGroup} (h : ∀ g ∈ d, g.matching = true → g.left = g.right) :
+    rightCat d = (d.map (·.right)).flatten := by
+  unfold rightCat
+  congr 1
+  apply List.map_congr_left
+  intro g hg
+  by_cases hm : g.matching = true
+  · simp [hm, h g hg hm]
+  · simp [hm]
+
+theorem GroupOK_of_DiffOK {len : Nat} {d : List DiffGroup} {l r : Bytes} (hd : DiffOK d l r)
+    (hl : DiffSafe len l) (hr : DiffSafe len r) : ∀ g ∈ d, GroupOK len g := by
+  intro g hg
+  have hal := hd.aligned
+  refine ⟨(hal g hg).1, (hal g hg).2, ?_, ?_⟩
+  · refine DiffSafe_of_piece (cs := d.map (·.left)) ?_ (hd.left ▸ hl) (List.mem_map_of_mem hg)
+    intro c hc; obtain ⟨g', hg', rfl⟩ := List.mem_map.mp hc; exact (hal g' hg').1
+  · refine DiffSafe_of_piece (cs := d.map (·.right)) ?_ (hd.right ▸ hr) (List.mem_map_of_mem hg)
+    intro c hc; obtain ⟨g', hg', rfl⟩ := List.mem_map.mp hc; exact (hal g' hg').2
+
+/-- a term of a diff-style conflict: as `TermOK`, and additionally safe under diff prefixes -/
+structure DTermOK (len : Nat) (t : Term) : Prop extends TermOK len t where
+  safe : DiffSafe len t.contents
+  clean : Clean t.label
+
+theorem jj_sec_diff (len : Nat) (hn : 1 ≤ len) (eol : Bytes) (he : IsEol eol) (base add : Term)
+    (hb : DTermOK len base) (ha : DTermOK len add) (d : List DiffGroup)
+    (hd : DiffOK d base.contents add.contents) (st : JJState) (rs as : List Bytes) (rest : Bytes) :
+    parseJJLoop len st rs as (linesWT (writeDiff len eol base add d ++ rest)) =
+      parseJJLoop len .diff (base.contents :: rs) (add.contents :: as) (linesWT rest) := by
+  have hg := GroupOK_of_DiffOK hd hb.safe ha.safe
+  have h1 : NoLF (ascii "diff from: " ++ base.label) := (Clean_append (by decide) hb.clean).noLF
+  have h2 : NoLF (ascii "       to: " ++ add.label) := (Clean_append (by decide) ha.clean).noLF
+  unfold writeDiff
+  simp only [List.append_assoc]
+  rw [← List.append_assoc, linesWT_line _ _ (markerLine_Line _ len _ eol h1 he),
+    ← List.append_assoc, linesWT_line _ _ (markerLine_Line _ len _ eol h2 he)]
+  simp only [parseJJLoop, parseMarker_markerLine _ len hn _ _ he]
+  rw [jj_diff_groups len d hg]
+  simp only [List.nil_append]
+  rw [show leftCat d = base.contents from hd.left, rightCat_eq hd.matching, hd.right]
+
+theorem BodyOK_writeDiff (len : Nat) (hn : 1 ≤ len) (eol : Bytes) (he : IsEol eol) (base add : Term)
+    (hb : DTermOK len base) (ha : DTermOK len add) (d : List DiffGroup)
+    (hd : DiffOK d base.contents add.contents) : BodyOK len (writeDiff len eol base add d) := by
+  have hg := GroupOK_of_DiffOK hd hb.safe ha.safe
+  have h1 : NoLF (ascii "diff from: " ++ base.label) := (Clean_append (by decide) hb.clean).noLF
+  have h2 : NoLF (ascii "       to: " ++ add.label) := (Clean_append (by decide) ha.clean).noLF
+  unfold writeDiff
+  exact BodyOK_append (BodyOK_markerLine .diff len hn _ _ h1 he (by decide))
+    (BodyOK_append (BodyOK_markerLine .note len hn _ _ h2 he (by decide))
+      (BodyOK_writeDiffHunks len d hg))
+
+theorem parseConflictHunk_jj_diff (len : Nat) (hn : 1 ≤ len) (eol : Bytes) (he : IsEol eol)
+    (base add : Term) (hb : DTermOK len base) (d : List DiffGroup) (rest : Bytes) :
+    parseConflictHunk (writeDiff len eol base add d ++ rest) len =
+      parseJJ (writeDiff len eol base add d ++ rest) len := by
+  have h1 : NoLF (ascii "diff from: " ++ base.label) := (Clean_append (by decide) hb.clean).noLF
+  unfold parseConflictHunk writeDiff
+  simp only [List.append_assoc]
+  rw [← List.append_assoc, linesWT_line _ _ (markerLine_Line _ len _ eol h1 he)]
+  simp [parseMarker_markerLine _ len hn _ _ he]
+
+/-- the diff function reconstructs both (EOL-terminated) inputs, line aligned -/
+def DiffFnOK (diffFn : DiffFn) : Prop := ∀ l r, EndsLF l → EndsLF r → DiffOK (diffFn l r) l r
+
+/-- what the loop of `materialize_jj_style_conflict` and the trailing snapshot write together -/
+def jjTail (diffFn : DiffFn) (style : Style) (len : Nat) (eol : Bytes) (addTerms : List Term)
+    (R : List Term) (i : Nat) (sw : Bool) : Bytes :=
+  (jjLoop diffFn style len eol addTerms R i sw).1 ++
+    (if (jjLoop diffFn style len eol addTerms R i sw).2 then []
+     else writeSide len eol (addTerms.getD (addTerms.length - 1) default))
+
+theorem jjTail_nil (diffFn : DiffFn) (style : Style) (len : Nat) (eol : Bytes) (addTerms : List Term)
+    (i : Nat) (sw : Bool) :
+    jjTail diffFn style len eol addTerms [] i sw =
+      if sw then [] else writeSide len eol (addTerms.getD (addTerms.length - 1) default) := by
+  simp [jjTail, jjLoop]
+
+theorem jjTail_cons (diffFn : DiffFn) (style : Style) (hs : style.allowsDiff = true) (len : Nat)
+    (eol : Bytes) (addTerms : List Term) (left : Term) (R : List Term) (i : Nat) (sw : Bool) :
+    jjTail diffFn style len eol addTerms (left :: R) i sw =
+      let addIndex := if sw then i + 1 else i
+      let right1 := addTerms.getD addIndex default
+      let right2 := addTerms.getD (addIndex + 1) default
+      let d1 := diffFn left.contents right1.contents
+      let d2 := diffFn left.contents right2.contents
+      if !sw && diffSize d2 < diffSize d1 then
+        writeSide len eol right1 ++ (writeDiff len eol left right2 d2 ++
+          jjTail diffFn style len eol addTerms R (i + 1) true)
+      else
+        writeDiff len eol left right1 d1 ++ jjTail diffFn style len eol addTerms R (i + 1) sw := by
+  cases sw with
+  | true => simp [jjTail, jjLoop, hs, List.append_assoc]
+  | false =>
+    simp only [jjTail, jjLoop, hs, Bool.not_true, Bool.false_eq_true, if_false, Bool.not_false,
+      Bool.true_and]
+    split <;> simp [List.append_assoc]
+
+theorem getD_append_at {α : Type} (pre : List α) (a : α) (A : List α) (d : α) (k : Nat)
+    (hk : pre.length = k) : (pre ++ a :: A).getD k d = a := by
+  subst hk; simp [List.getD]
+
+theorem jjTail_diff (diffFn : DiffFn) (hdf : DiffFnOK diffFn) (style : Style)
+    (hs : style.allowsDiff = true) (len : Nat) (hn : 1 ≤ len) (eol : Bytes) (he : IsEol eol)
+    (addTerms : List Term) (R : List Term) :
+    ∀ (A pre : List Term) (i : Nat) (sw : Bool),
+      addTerms = pre ++ A → pre.length = (if sw then i + 1 else i) →
+      A.length = R.length + (if sw then 0 else 1) →
+      (∀ t ∈ R, DTermOK len t) → (∀ t ∈ A, DTermOK len t) →
+      BodyOK len (jjTail diffFn style len eol addTerms R i sw) ∧
+      (∀ st rs as rest, ∃ st',
+        parseJJLoop len st rs as (linesWT (jjTail diffFn style len eol addTerms R i sw ++ rest)) =
+          parseJJLoop len st' ((R.map (·.contents)).reverse ++ rs) ((A.map (·.contents)).reverse ++ as)
+            (linesWT rest)) ∧
+      ((R ≠ [] ∨ sw = false) → ∀ rest,
+        parseConflictHunk (jjTail diffFn style len eol addTerms R i sw ++ rest) len =
+          parseJJ (jjTail diffFn style len eol addTerms R i sw ++ rest) len) := by
+  induction R with
+  | nil =>
+    intro A pre i sw h1 h2 h3 _ hA
+    rw [jjTail_nil]
+    cases sw with
+    | true =>
+      have : A = [] := by simpa using h3
+      subst this
+      refine ⟨by simpa using BodyOK_nil len, ?_, ?_⟩
+      · intro st rs as rest; exact ⟨st, by simp⟩
+      · intro h; simp at h
+    | false =>
+      obtain ⟨a, rfl⟩ : ∃ a, A = [a] := by
+        match A, h3 with
+        | [a], _ => exact ⟨a, rfl⟩
+      have ha := hA a (by simp)
+      have hlast : addTerms.getD (addTerms.length - 1) default = a := by
+        subst h1; simp [List.getD]
+      simp only [Bool.false_eq_true, if_false, hlast]
+      refine ⟨BodyOK_writeSide hn he ha.toTermOK, ?_, ?_⟩
+      · intro st rs as rest
+        exact ⟨.add, by rw [jj_sec_add len hn eol he a ha.toTermOK]; simp⟩
+      · intro _ rest; exact parseConflictHunk_jj_add len hn eol he a ha.toTermOK rest
+  | cons left R ih =>
+    intro A pre i sw h1 h2 h3 hR hA
+    have hleft := hR left (by simp)
+    have hR' : ∀ t ∈ R, DTermOK len t := fun t ht => hR t (List.mem_cons_of_mem _ ht)
+    rw [jjTail_cons diffFn style hs]
+    cases A with
+    | nil => exfalso; simp only [List.length_nil, List.length_cons] at h3; split at h3 <;> omega
+    | cons a A =>
+      have ha := hA a (by simp)
+      have hA' : ∀ t ∈ A, DTermOK len t := fun t ht => hA t (List.mem_cons_of_mem _ ht)
+      have hr1 : addTerms.getD (if sw then i + 1 else i) default = a := by
+        rw [h1]; exact getD_append_at pre a A default _ h2
+      simp only [hr1]
+      have hd1 := hdf left.contents a.contents hleft.ends ha.ends
+      cases sw with
+      | true =>
+        simp only [Bool.not_true, Bool.false_and, Bool.false_eq_true, if_false]
+        obtain ⟨ihB, ihP, _⟩ := ih A (pre ++ [a]) (i + 1) true (by simp [h1]) (by simpa using h2)
+          (by simpa using h3) hR' hA'
+        refine ⟨BodyOK_append (BodyOK_writeDiff len hn eol he left a hleft ha _ hd1) ihB, ?_, ?_⟩
+        · intro st rs as rest
+          obtain ⟨st', hst'⟩ := ihP .diff (left.contents :: rs) (a.contents :: as) rest
+          refine ⟨st', ?_⟩
+          rw [List.append_assoc, jj_sec_diff len hn eol he left a hleft ha _ hd1, hst']
+          simp
+        · intro _ rest
+          rw [List.append_assoc]
+          exact parseConflictHunk_jj_diff len hn eol he left a hleft _ _
+      | false =>
+        cases A with
+        | nil => exfalso; simp only [List.length_nil, List.length_cons] at h3; simp at h3
+        | cons a2 A =>
+          have ha2 := hA' a2 (by simp)
+          have hA'' : ∀ t ∈ A, DTermOK len t := fun t ht => hA' t (List.mem_cons_of_mem _ ht)
+          have hr2 : addTerms.getD (i + 1) default = a2 := by
+            rw [h1]
+            have := getD_append_at (pre ++ [a]) a2 A default (i + 1) (by simpa using h2)
+            simpa using this
+          simp only [Bool.false_eq_true, if_false, hr2, Bool.not_false, Bool.true_and]
+          have hd2 := hdf left.contents a2.contents hleft.ends ha2.ends
+          by_cases hlt : diffSize (diffFn left.contents a2.contents) <
+              diffSize (diffFn left.contents a.contents)
+          · simp only [hlt, decide_true, if_true]
+            obtain ⟨ihB, ihP, _⟩ := ih A (pre ++ [a, a2]) (i + 1) true (by simp [h1])
+              (by simp at h2 ⊢; omega) (by simpa using h3) hR' hA''
+            refine ⟨BodyOK_append (BodyOK_writeSide hn he ha.toTermOK)
+              (BodyOK_append (BodyOK_writeDiff len hn eol he left a2 hleft ha2 _ hd2) ihB), ?_, ?_⟩
+            · intro st rs as rest
+              obtain ⟨st', hst'⟩ := ihP .diff (left.contents :: rs) (a2.contents :: a.contents :: as) rest
+              refine ⟨st', ?_⟩
+              rw [List.append_assoc, jj_sec_add len hn eol he a ha.toTermOK, List.append_assoc,
+                jj_sec_diff len hn eol he left a2 hleft ha2 _ hd2, hst']
+              simp
+            · intro _ rest
+              rw [List.append_assoc]
+              exact parseConflictHunk_jj_add len hn eol he a ha.toTermOK _
+          · simp only [hlt, decide_false, Bool.false_eq_true, if_false]
+            obtain ⟨ihB, ihP, _⟩ := ih (a2 :: A) (pre ++ [a]) (i + 1) false (by simp [h1])
+              (by simpa using h2) (by simpa using h3) hR' hA'
+            refine ⟨BodyOK_append (BodyOK_writeDiff len hn eol he left a hleft ha _ hd1) ihB, ?_, ?_⟩
+            · intro st rs as rest
+              obtain ⟨st', hst'⟩ := ihP .diff (left.contents :: rs) (a.contents :: as) rest
+              refine ⟨st', ?_⟩
+              rw [List.append_assoc, jj_sec_diff len hn eol he left a hleft ha _ hd1, hst']
+              simp
+            · intro _ rest
+              rw [List.append_assoc]
+              exact parseConflictHunk_jj_diff len hn eol he left a hleft _ _
+
+theorem parseMarker_single (p : UInt8) (len : Nat) (h2 : 2 ≤ len) : parseMarker [p] len = none := by
+  unfold parseMarker
+  cases hm : parseMarkerAnyLen [p] with
+  | none => rfl
+  | some km =>
+    obtain ⟨k, m⟩ := km
+    rcases parseMarkerAnyLen_cons hm with h1 | ⟨m', hm', _⟩
+    · simp only [ge_iff_le]; rw [if_neg (by omega)]
+    · simp [parseMarkerAnyLen] at hm'
+
+theorem DiffSafe_pad {len : Nat} (h2 : 2 ≤ len) {c eol : Bytes} (h : DiffSafe len c) (he : IsEol eol) :
+    DiffSafe len (c ++ eol) := by
+  obtain ⟨ls, last, rfl, hls, hlast⟩ := lines_decomp c
+  unfold DiffSafe at h ⊢
+  rw [linesWT_decomp ls last hls hlast] at h
+  obtain ⟨e, rfl, hne, hws⟩ := eol_cases he
+  have hline : Line (last ++ (e ++ [LF])) := ⟨last ++ e, by simp, NoLF_append hlast hne⟩
+  have : linesWT (ls.flatten ++ last ++ (e ++ [LF])) = ls ++ [last ++ (e ++ [LF])] := by
+    rw [List.append_assoc, linesWT_flatten_lines ls _ hls]
+    have := linesWT_line (last ++ (e ++ [LF])) [] hline
+    simp only [List.append_nil] at this
+    rw [this]; simp [linesWT]
+  rw [this]
+  intro l hl
+  rcases List.mem_append.mp hl with h1 | h1
+  · exact h l (List.mem_append_left _ h1)
+  · simp only [List.mem_singleton] at h1; subst h1
+    have key : ∀ p : UInt8, (last ≠ [] → parseMarker (p :: last) len = none) →
+        parseMarker (p :: (last ++ (e ++ [LF]))) len = none := by
+      intro p hp
+      have := parseMarkerAnyLen_append_ws (p :: last) (e ++ [LF]) (by simp) (by simp) hws
+      simp only [List.cons_append] at this
+      unfold parseMarker; rw [this]
+      by_cases hl0 : last = []
+      · subst hl0; exact parseMarker_single p len h2
+      · exact hp hl0
+    refine ⟨key _ ?_, key _ ?_, key _ ?_⟩ <;> intro hl0
+    · exact (h last (by simp [hl0])).1
+    · exact (h last (by simp [hl0])).2.1
+    · exact (h last (by simp [hl0])).2.2
+
+/-- `materialize_jj_style_conflict` for the two diff styles, relative to `DiffFnOK` -/
+theorem jj_diff_conflict (diffFn : DiffFn) (hdf : DiffFnOK diffFn) (style : Style)
+    (hs : style.allowsDiff = true) (len : Nat) (hn : 1 ≤ len) (eol : Bytes) (he : IsEol eol)
+    (info : Bytes) (sides : List Term) (hodd : sides.length % 2 = 1)
+    (hok : ∀ t ∈ sides, DTermOK len t) :
+    ∃ B, materializeJJ diffFn sides info style len eol =
+        writeMarker .conflictStart len info ++ eol ++
+          (B ++ writeMarker .conflictEnd len (info ++ ascii " ends")) ∧
+      BodyOK len B ∧ parseConflictHunk B len = sides.map (·.contents) := by
+  cases sides with
+  | nil => simp at hodd
+  | cons a0 rest =>
+    have heven : rest.length % 2 = 0 := by simp at hodd; omega
+    have hlen : (adds rest).length = (removes rest).length := by
+      rw [(adds_removes_length rest).1, (adds_removes_length rest).2]; omega
+    have h0 : DTermOK len a0 := hok a0 (by simp)
+    have hR : ∀ t ∈ adds rest, DTermOK len t := fun t ht =>
+      hok t (List.mem_cons_of_mem _ ((adds_removes_subset rest).1 t ht))
+    have hA : ∀ t ∈ removes rest, DTermOK len t := fun t ht =>
+      hok t (List.mem_cons_of_mem _ ((adds_removes_subset rest).2 t ht))
+    have hfinal : interleave (a0.contents :: (removes rest).map (·.contents)) ((adds rest).map (·.contents))
+        = (a0 :: rest).map (·.contents) := by
+      rw [← (adds_removes_map (·.contents) rest).1, ← (adds_removes_map (·.contents) rest).2,
+        interleave_even _ (by simpa using heven)]; simp
+    have hmat : materializeJJ diffFn (a0 :: rest) info style len eol =
+        writeMarker .conflictStart len info ++ eol ++
+          (((if (style != Style.diff) = true then writeSide len eol a0 else []) ++
+            jjTail diffFn style len eol (a0 :: removes rest) (adds rest) 0 (style != Style.diff)) ++
+          writeMarker .conflictEnd len (info ++ ascii " ends")) := by
+      unfold materializeJJ jjTail
+      simp only [(adds_removes_cons a0 rest).1, (adds_removes_cons a0 rest).2, List.headD_cons]
+      simp [List.append_assoc]
+    refine ⟨_, hmat, ?_⟩
+    cases hsw : (style != Style.diff) with
+    | true =>
+      obtain ⟨hB, hP, _⟩ := jjTail_diff diffFn hdf style hs len hn eol he (a0 :: removes rest)
+        (adds rest) (removes rest) [a0] 0 true rfl rfl (by simpa using hlen.symm) hR hA
+      simp only [if_true]
+      refine ⟨BodyOK_append (BodyOK_writeSide hn he h0.toTermOK) hB, ?_⟩
+      rw [parseConflictHunk_jj_add len hn eol he a0 h0.toTermOK]
+      unfold parseJJ
+      rw [jj_sec_add len hn eol he a0 h0.toTermOK]
+      obtain ⟨st', hst'⟩ := hP .add [] [a0.contents] []
+      simp only [List.append_nil] at hst'
+      rw [hst']
+      simp only [linesWT, parseJJLoop]
+      simp [hlen, hfinal]
+    | false =>
+      obtain ⟨hB, hP, hH⟩ := jjTail_diff diffFn hdf style hs len hn eol he (a0 :: removes rest)
+        (adds rest) (a0 :: removes rest) [] 0 false rfl rfl (by simpa using hlen.symm) hR
+        (by intro t ht; rcases List.mem_cons.mp ht with rfl | h
+            · exact h0
+            · exact hA t h)
+      simp only [Bool.false_eq_true, if_false, List.nil_append]
+      refine ⟨hB, ?_⟩
+      have h1 := hH (Or.inr rfl) []
+      simp only [List.append_nil] at h1
+      rw [h1]
+      unfold parseJJ
+      obtain ⟨st', hst'⟩ := hP .unknown [] [] []
+      simp only [List.append_nil] at hst'
+      rw [hst']
+      simp only [linesWT, parseJJLoop]
+      simp [hlen, hfinal]
+
+theorem dsides_ok_eol {len : Nat} {labels : List Bytes} (hl : LabelsOK labels) {h : List Bytes}
+    (hc : ∀ c ∈ h, ContentOK len c) (hd : ∀ c ∈ h, DiffSafe len c) (hall : allSidesHaveEol h = true) :
+    ∀ t ∈ buildHunkSides h labels, DTermOK len t := by
+  obtain ⟨hm, hlab⟩ := buildHunkSides_spec hl h
+  intro t ht
+  exact ⟨sides_ok_eol hl hc hall t ht, hd _ (mem_contents_of_map hm ht), hlab t ht⟩
+
+theorem dsides_ok_pad {len : Nat} (h2 : 2 ≤ len) {labels : List Bytes} (hl : LabelsOK labels)
+    {h : List Bytes} (hc : ∀ c ∈ h, ContentOK len c) (hd : ∀ c ∈ h, DiffSafe len c) {eol : Bytes}
+    (he : IsEol eol) :
+    ∀ t ∈ (buildHunkSides h labels).map (fun t => { t with contents := t.contents ++ eol }),
+      DTermOK len t := by
+  obtain ⟨hm, hlab⟩ := buildHunkSides_spec hl h
+  intro t ht
+  have hok := sides_ok_pad hl hc he t ht
+  obtain ⟨t0, ht0, rfl⟩ := List.mem_map.mp ht
+  exact ⟨hok, DiffSafe_pad h2 (hd _ (mem_contents_of_map hm ht0)) he, hlab t0 ht0⟩
+
+theorem diff_renders_eol (diffFn : DiffFn) (hdf : DiffFnOK diffFn) (style : Style)
+    (hs : style.allowsDiff = true) (len : Nat) (hn : 1 ≤ len) (eol : Bytes)
+    (he : IsEol eol) (labels : List Bytes) (hl : LabelsOK labels) (h : List Bytes)
+    (hodd : h.length % 2 = 1) (hc : ∀ c ∈ h, ContentOK len c) (hd : ∀ c ∈ h, DiffSafe len c)
+    (hall : allSidesHaveEol h = true) (ci nc : Nat) :
+    RendersEol len eol h (materializeConflict diffFn style len labels eol h ci nc) := by
+  have hm := (buildHunkSides_spec hl h).1
+  have hlen : (buildHunkSides h labels).length % 2 = 1 := by
+    rw [← List.length_map (f := (·.contents)), hm]; exact hodd
+  obtain ⟨B, hmat, hB, hp⟩ := jj_diff_conflict diffFn hdf style hs len hn eol he (infoText ci nc)
+    (buildHunkSides h labels) hlen (dsides_ok_eol hl hc hd hall)
+  refine ⟨_, _, B, Clean_infoText ci nc, Clean_infoEnds ci nc, hB, hp.trans hm, ?_⟩
+  rw [materializeConflict_jj diffFn style len labels eol h ci nc
+    (by intro hg; subst hg; simp [Style.allowsDiff] at hs) hl]
+  simp only [hall, if_true, hmat]
+  simp [List.append_assoc]
+
+theorem diff_renders_noeol (diffFn : DiffFn) (hdf : DiffFnOK diffFn) (style : Style)
+    (hs : style.allowsDiff = true) (len : Nat) (h2 : 2 ≤ len) (eol : Bytes)
+    (he : IsEol eol) (labels : List Bytes) (hl : LabelsOK labels) (h : List Bytes)
+    (hodd : h.length % 2 = 1) (hc : ∀ c ∈ h, ContentOK len c) (hd : ∀ c ∈ h, DiffSafe len c)
+    (hall : allSidesHaveEol h = false) (ci nc : Nat) :
+    RendersNoEol len eol h (materializeConflict diffFn style len labels eol h ci nc) := by
+  have hm := sides_pad_contents hl h eol
+  have hlen : ((buildHunkSides h labels).map
+      (fun t => { t with contents := t.contents ++ eol })).length % 2 = 1 := by
+    rw [← List.length_map (f := (·.contents)), hm]; simpa using hodd
+  obtain ⟨B, hmat, hB, hp⟩ := jj_diff_conflict diffFn hdf style hs len (by omega) eol he
+    (infoText ci nc) _ hlen (dsides_ok_pad h2 hl hc hd he)
+  refine ⟨_, _, B, Clean_infoText ci nc, Clean_infoEnds ci nc, hB, hp.trans hm, ?_⟩
+  rw [materializeConflict_jj diffFn style len labels eol h ci nc
+    (by intro hg; subst hg; simp [Style.allowsDiff] at hs) hl]
+  simp only [hall, Bool.false_eq_true, if_false, hmat]
 end JjModel.Conflicts
